@@ -96,6 +96,7 @@ fn fork_exec(out: &mut Out, ex: &[Value]) {
     let mut first = true;
     let mut i = 1;
     let mut to_rc = false;
+    let mut to_clone = false;
     loop {
         let mut j = i;
         while j < ex.len() && ex[j]["ev"] != "resplit" {
@@ -110,6 +111,10 @@ fn fork_exec(out: &mut Out, ex: &[Value]) {
             run_ops!(a, b, ops);
             return;
         }
+        if to_clone {
+            // a resplit {to: "clone"}: the used fork is cloned (`Fork: Clone`) and the clone is split from here on
+            fork = fork.clone();
+        }
         {
             let (split, hs, _) = measured(|| fork.by_ref());
             let (a, b) = split;
@@ -118,7 +123,7 @@ fn fork_exec(out: &mut Out, ex: &[Value]) {
                 out.line(&json!({"ev":"reset","comp":"fork","cfg":cfg,"r":r_unit(),"o":o}));
                 first = false;
             } else {
-                out.ev("resplit", json!({"to":"ref"}), r_unit(), o, hs);
+                out.ev("resplit", json!({"to": if to_clone { "clone" } else { "ref" }}), r_unit(), o, hs);
             }
             let ops: Vec<&Value> = ex[i..j].iter().collect();
             run_ops!(a, b, ops);
@@ -127,6 +132,7 @@ fn fork_exec(out: &mut Out, ex: &[Value]) {
             break;
         }
         to_rc = ex[j]["a"]["to"] == "rc";
+        to_clone = ex[j]["a"]["to"] == "clone";
         i = j + 1;
     }
 }
@@ -264,7 +270,8 @@ fn gen(seed: u64, size: &str, path: &str) {
             if rng.chance(1, 40) { bias = *rng.pick(&[10, 50, 90, 0, 100]); }
             if !rc && rng.chance(1, 50) {
                 let to_rc = rng.chance(1, 6);
-                ex.push(json!({"ev":"resplit","a":{"to": if to_rc {"rc"} else {"ref"}}}));
+                let to_clone = !to_rc && rng.chance(1, 4);
+                ex.push(json!({"ev":"resplit","a":{"to": if to_rc {"rc"} else if to_clone {"clone"} else {"ref"}}}));
                 rc = to_rc;
                 live_a = true;
                 live_b = true;
@@ -302,6 +309,20 @@ fn gen(seed: u64, size: &str, path: &str) {
                     else if k < 9 { json!({"ev":"next_frames","a":{"k": rng.below(cap as u64 + 3)}}) }
                     else { json!({"ev":"is_exhausted","a":{"x":0}}) });
         }
+        execs.push(ex);
+    }
+    // bus: one output stays more than 4096 frames behind the leader (a power-of-two backlog length and beyond), then
+    // catches up completely; a second laggard attached late is dropped half way
+    for (lag, srclen) in [(4100usize, -1i64), (4097, 5000)].iter().copied().take(if thorough { 2 } else { 1 }) {
+        let mut ex = vec![json!({"ev":"reset","comp":"bus","cfg":{"srclen":srclen}})];
+        ex.push(json!({"ev":"send","a":{"key":0}}));
+        ex.push(json!({"ev":"send","a":{"key":1}}));
+        for _ in 0..lag { ex.push(json!({"ev":"next","a":{"key":0}})); }
+        ex.push(json!({"ev":"send","a":{"key":2}}));
+        for _ in 0..5 { ex.push(json!({"ev":"next","a":{"key":0}})); }
+        for _ in 0..lag / 2 { ex.push(json!({"ev":"next","a":{"key":1}})); }
+        ex.push(json!({"ev":"drop","a":{"key":2}}));
+        for _ in 0..lag / 2 + 10 { ex.push(json!({"ev":"next","a":{"key":1}})); }
         execs.push(ex);
     }
     // bus: up to 6 live outputs; never-pulling outputs, drop slowest / fastest, re-attach after all dropped, lock-step runs
